@@ -86,15 +86,21 @@ Ltac frame_side :=
              | let X := fresh in intro X; exact X
              | let X := fresh in intro X; discriminate X
              | let X := fresh in intro X; left; exact X
+             | let X := fresh in intro X; right; assumption
              | let f := fresh in let X := fresh in intros f X; left; exact X
              | let f := fresh in let X := fresh in intros f X; discriminate X
+             | let f := fresh in let X := fresh in intros f X; right; split; [ congruence | assumption ]
              | idtac ].
 
 Ltac wk_side :=
-  cbn; repeat split; auto; try discriminate;
-  try (let X := fresh in intro X; discriminate X);
-  try (let f := fresh in let X := fresh in intros f X; first [discriminate X | left; exact X]);
-  try (let X := fresh in intro X; left; exact X).
+  cbn; repeat split;
+  first [ reflexivity | assumption | discriminate
+        | left; reflexivity
+        | right; split; [ reflexivity | assumption ]
+        | let X := fresh in intro X; first [ discriminate X | exact X | left; exact X | right; assumption ]
+        | let f := fresh in let X := fresh in intros f X;
+          first [ discriminate X | left; exact X | right; split; [ congruence | assumption ] ]
+        | idtac ].
 
 Ltac frame_io HL3 :=
   apply (L3_frame _ _) with (17 := HL3);
@@ -475,19 +481,196 @@ Proof.
   - upd_me me; [congruence | eauto].
 Qed.
 
-Theorem L3_step_probe : forall st c st' l, L0 st -> L1 st -> L2 st -> L3' P st -> wsc (sh st') = false ->
+(* ---- write_soon appends the data of the current call *)
+Lemma L3_append_wk : forall s i w me x s',
+  L0 {| sh := s; io := i; wk := w |} -> L1 {| sh := s; io := i; wk := w |} ->
+  L3' P {| sh := s; io := i; wk := w |} ->
+  wpc (w me) = WWsApp ->
+  obs s' = app_last (obs s) (resp_toks (w_cur (w me)) (w_off (w me)) (wsize P (w me))) ->
+  produced s' = produced s ++ resp_toks (w_cur (w me)) (w_off (w me)) (wsize P (w me)) ->
+  units s' = bump (w_cur (w me)) (wsize P (w me)) (units s) ->
+  infl s' = infl s -> wire s' = wire s -> discarded s' = discarded s -> requests s' = requests s ->
+  connected s' = connected s -> execs s' = execs s ->
+  w_cur x = w_cur (w me) -> w_idx x = w_idx (w me) -> w_off x = w_off (w me) ->
+  wk_fl (wpc x) = None -> is_sc (wpc x) = false -> is_relx (wpc x) = false -> app_pc (wpc x) = false ->
+  appended (wpc x) = true -> in_task (wpc x) = true ->
+  L3' P {| sh := s'; io := i; wk := upd w me x |}.
+Proof.
+  intros s i w me x s' HL0 HL1 HL3 Hpc E1 E2 E3 E4 E5 E6 E7 E8 E9 X1 X2 X3 X4 X5 X6 X7 X8 X9.
+  assert (Hol : wk_ol (wpc (w me)) = true) by (rewrite Hpc; reflexivity).
+  destruct (wk_ol_excl _ me HL0 HL1 HL3 Hol) as [Hio Hoth]. cbn [sh io wk] in *.
+  assert (Hfme : wk_fl (wpc (w me)) = None) by (rewrite Hpc; reflexivity).
+  assert (Hnf : forall j, wk_fl (wpc (w j)) = None).
+  { intro j. destruct (Nat.eq_dec j me) as [->|N]; auto. }
+  assert (Htme : in_task (wpc (w me)) = true) by (rewrite Hpc; reflexivity).
+  assert (Hame : appended (wpc (w me)) = false) by (rewrite Hpc; reflexivity).
+  assert (Hown : wk_owner (wpc (w me)) = true) by (rewrite Hpc; reflexivity).
+  pose proof (owner_others_notask _ me HL1 Hown) as Hont. cbn [sh io wk] in *.
+  assert (Hinfl : infl s = 0) by (apply (o_infl _ _ HL3); auto).
+  assert (Hdisc : discarded s = []) by (apply (o_app _ _ HL3 me); cbn; rewrite Hpc; reflexivity).
+  destruct HL3 as [A B C D E F G H I J K L M N O Q]. cbn [sh io wk] in *.
+  destruct (K me Htme) as (K1 & K2 & us & K3 & K4).
+  unfold off_now in K3. rewrite Hame in K3.
+  assert (Hbump : bump (w_cur (w me)) (wsize P (w me)) (units s) = us ++ [UResp (w_cur (w me)) (w_off (w me) + wsize P (w me))]).
+  { rewrite K3. apply bump_last. }
+  assert (Hoffx : off_now P x = w_off (w me) + wsize P (w me)).
+  { unfold off_now, wsize. rewrite X8, X1, X2, X3. reflexivity. }
+  split; cbn [sh io wk]; unfold transport in *; rewrite ?E1, ?E2, ?E3, ?E4, ?E5, ?E6, ?E7, ?E8, ?E9; intros; eauto.
+  all: try congruence.
+  - apply app_last_nonnil.
+  - upd_me me; auto.
+  - upd_me me; [congruence | rewrite Hnf in *; discriminate].
+  - rewrite Hinfl, Hdisc in *. cbn [skipn] in *. rewrite concat_app_last.
+    rewrite app_nil_r in *. rewrite <- H. rewrite app_assoc. reflexivity.
+  - rewrite Hbump. rewrite I, K3. rewrite !flat_map_app. cbn. rewrite !app_nil_r.
+    rewrite resp_toks_app. rewrite app_assoc. reflexivity.
+  - rewrite Hbump. rewrite <- J, K3. rewrite !resp_ids_app. reflexivity.
+  - rewrite Hbump. upd_me me.
+    + unfold writes in *. rewrite Hoffx, X1, X2, X3. repeat split; auto. exists us. split; auto.
+    + rewrite Hont in H0 by auto. discriminate.
+  - specialize (H0 me). rewrite upd_same in H0. congruence.
+  - upd_me me; [congruence | eauto].
+Qed.
+
+(* ---- write_soon returns: the next call, or the end of the task *)
+Lemma L3_rel : forall s i w me x s',
+  L0 {| sh := s; io := i; wk := w |} -> L1 {| sh := s; io := i; wk := w |} ->
+  L3' P {| sh := s; io := i; wk := w |} ->
+  wpc (w me) = WWsRel ->
+  obs s' = obs s -> infl s' = infl s -> wire s' = wire s -> produced s' = produced s -> units s' = units s ->
+  discarded s' = discarded s -> requests s' = requests s -> connected s' = connected s -> execs s' = execs s ->
+  w_cur x = w_cur (w me) -> w_idx x = S (w_idx (w me)) -> w_off x = w_off (w me) + wsize P (w me) ->
+  wk_fl (wpc x) = None -> is_sc (wpc x) = false -> is_relx (wpc x) = false -> app_pc (wpc x) = false ->
+  appended (wpc x) = false ->
+  (in_task (wpc x) = true -> S (w_idx (w me)) < length (writes P (w me))) ->
+  (in_task (wpc x) = false -> length (writes P (w me)) <= S (w_idx (w me))) ->
+  L3' P {| sh := s'; io := i; wk := upd w me x |}.
+Proof.
+  intros s i w me x s' HL0 HL1 HL3 Hpc E1 E2 E3 E4 E5 E6 E7 E8 E9 X1 X2 X3 X4 X5 X6 X7 X8 X9 X10.
+  assert (Hol : wk_ol (wpc (w me)) = true) by (rewrite Hpc; reflexivity).
+  destruct (wk_ol_excl _ me HL0 HL1 HL3 Hol) as [Hio Hoth]. cbn [sh io wk] in *.
+  assert (Htme : in_task (wpc (w me)) = true) by (rewrite Hpc; reflexivity).
+  assert (Hame : appended (wpc (w me)) = true) by (rewrite Hpc; reflexivity).
+  assert (Hown : wk_owner (wpc (w me)) = true) by (rewrite Hpc; reflexivity).
+  pose proof (owner_others_notask _ me HL1 Hown) as Hont. cbn [sh io wk] in *.
+  assert (FE : forall f, FlInv s f -> FlInv s' f) by (intros f0 X; unfold FlInv in *; rewrite E1, E2; exact X).
+  assert (Hfme : wk_fl (wpc (w me)) = None) by (rewrite Hpc; reflexivity).
+  destruct HL3 as [A B C D E F G H I J K L M N O Q]. cbn [sh io wk] in *.
+  destruct (K me Htme) as (K1 & K2 & us & K3 & K4).
+  unfold off_now in K3. rewrite Hame in K3.
+  assert (Hsum : w_off (w me) + wsize P (w me) = list_sum (firstn (S (w_idx (w me))) (writes P (w me)))).
+  { rewrite list_sum_firstn_S by auto. unfold wsize, writes in *. rewrite K2. reflexivity. }
+  split; cbn [sh io wk]; unfold transport in *; rewrite ?E1, ?E2, ?E3, ?E4, ?E5, ?E6, ?E7, ?E8, ?E9; intros; eauto.
+  all: try congruence.
+  all: try solve [apply FE; eauto].
+  - upd_me me; auto.
+  - upd_me me; [congruence | apply FE; eauto].
+  - apply G; auto. intro j. specialize (H1 j). upd_me me; auto.
+  - upd_me me.
+    + specialize (X9 H0). unfold writes, off_now in *. rewrite X8, X1, X2, X3. repeat split; auto.
+      exists us. split; auto.
+    + rewrite Hont in H0 by auto. discriminate.
+  - (* o_done: the response just finished is complete *)
+    specialize (H0 me) as Hx. rewrite upd_same in Hx. specialize (X10 Hx).
+    rewrite K3. apply Forall_app. split; auto. constructor; auto. simpl.
+    rewrite Hsum. unfold resp_len, writes in *. rewrite firstn_all2 by lia. reflexivity.
+  - upd_me me; [congruence | eauto].
+  - upd_me me; [congruence | eauto].
+Qed.
+
+Ltac side := cbn; first [ reflexivity | assumption | discriminate | auto; fail
+                        | let X := fresh in intro X; first [ discriminate X | exact X ] ].
+
+Ltac fl_io HL0 HL1 HL3 :=
+  match goal with
+  | E : fl_step ?s ?f ?e = Some (?s', ?r, ?l) |- L3' _ {| sh := ?s'; io := ?i'; wk := ?w |} =>
+      eapply (L3_fl_io _ _ _ f e s' r l i' HL0 HL1 HL3); [ reflexivity | exact E | side | side | side | side | side ]
+  end.
+
+Ltac fl_wk me Hw HL0 HL1 HL3 :=
+  match goal with
+  | E : fl_step ?s ?f ?e = Some (?s', ?r, ?l) |- L3' _ {| sh := ?s'; io := ?i; wk := upd ?w me ?x |} =>
+      eapply (L3_fl_wk _ _ _ me f e s' r l x HL0 HL1 HL3);
+      [ rewrite Hw; reflexivity | exact E | rewrite Hw; reflexivity | rewrite Hw; reflexivity | rewrite Hw; reflexivity
+      | side | side | side | side | side | side ]
+  end.
+
+Theorem L3'_step : forall st c st' l, L0 st -> L1 st -> L2 st -> L3' P st -> wsc (sh st') = false ->
   step P st c = Some (st', l) -> L3' P st'.
 Proof.
   intros st c st' l HL0 HL1 HL2 HL3 Hwsc Hs.
   destruct c as [e | me e].
-  - step_io' Hs; cbn [sh io wk ipc] in *.
+  - pose proof (nofl_io_ol st HL0) as Fa.
+    pose proof (nofl_req_empty st HL1 HL3) as Fb.
+    pose proof (nofl_olock_free st HL0) as Fc.
+    pose proof (o_infl _ _ HL3) as Hinf0.
+    step_io' Hs; cbn [sh io wk ipc] in *.
     all: try solve [frame_io HL3].
     all: try solve [destruct icomp; frame_io HL3].
-    all: match goal with |- ?G => idtac "IOGOAL" G end.
-    all: admit.
-  - step_wk' Hs; cbn [sh io wk ipc] in *.
+    all: try solve [fl_io HL0 HL1 HL3].
+    (* entering _flush_some: nothing is in flight *)
+    all: try (match goal with |- L3' _ {| sh := ?s0; io := _; wk := _ |} =>
+                assert (Hinfl : infl s0 = 0) by
+                 (cbn; apply Hinf0; [ reflexivity
+                               | first [ apply Fa; reflexivity
+                                       | apply Fb; first [assumption | reflexivity]
+                                       | apply Fc; apply free_none; assumption ] ]) end;
+              cbn in Hinfl; solve [frame_io HL3]).
+    (* send_continue appends *)
+    all: try solve [ eapply (L3_append_io _ _ _ _ _ (pst_id s) HL0 HL1 HL3); side ].
+    (* handle_close *)
+    all: try solve [ eapply (L3_close_bufs _ _ _ _ _ HL0 HL1 HL3); side ].
+  - pose proof (o_nsc _ _ HL3 me) as Hnsc.
+    pose proof (o_relx _ _ HL3 me) as Hrelx.
+    pose proof (no_disc_when_ol st me HL0 HL3) as Hnd.
+    pose proof (wk_ol_excl st me HL0 HL1 HL3) as Hexcl.
+    pose proof (o_infl _ _ HL3) as Hinf0.
+    step_wk' Hs; cbn [sh io wk ipc] in *.
+    all: cbn in Hnsc, Hrelx, Hnd, Hexcl.
+    all: try discriminate Hnsc.
+    all: try (cbn in Hwsc; discriminate Hwsc).
     all: try solve [frame_wk HL3 me Hw].
-    all: match goal with |- ?G => idtac "WKGOAL" G end.
-    all: admit.
-Admitted.
+    all: try solve [fl_wk me Hw HL0 HL1 HL3].
+    all: try (match goal with |- L3' _ {| sh := ?s0; io := _; wk := _ |} =>
+                assert (Hcf : connected s0 = false) by (cbn; apply Hrelx; reflexivity) end;
+              cbn in Hcf; solve [frame_wk HL3 me Hw]).
+    all: try (match goal with |- L3' _ {| sh := ?s0; io := _; wk := _ |} =>
+                assert (Hd : discarded s0 = []) by (cbn; apply Hnd; first [reflexivity | assumption]) end;
+              cbn in Hd; solve [frame_wk HL3 me Hw]).
+    all: try (match goal with |- L3' _ {| sh := ?s0; io := _; wk := _ |} =>
+                assert (Hinfl : infl s0 = 0) by
+                 (cbn; destruct (Hexcl eq_refl) as [X1 X2]; apply Hinf0; [ exact X1 | ];
+                  let j := fresh "j" in intro j; destruct (Nat.eq_dec j me) as [->|N]; [rewrite Hw; reflexivity | apply X2; exact N]) end;
+              cbn in Hinfl; solve [frame_wk HL3 me Hw]).
+    all: try solve [ match goal with |- L3' _ {| sh := ?s0; io := ?i0; wk := upd ?w0 ?me0 ?x |} =>
+                       eapply (L3_exec _ i0 w0 me0 x s0 HL0 HL1 HL3) end;
+                     rewrite ?Hw; unfold writes, wsize; rewrite ?Hw; cbn; intros; bool_hyps;
+                     first [ reflexivity | assumption | lia | discriminate ] ].
+    all: try solve [ match goal with |- L3' _ {| sh := ?s0; io := ?i0; wk := upd ?w0 ?me0 ?x |} =>
+                       eapply (L3_rot _ i0 w0 me0 x s0 HL0 HL1 HL3) end;
+                     rewrite ?Hw; unfold writes, wsize; rewrite ?Hw; cbn; intros; bool_hyps;
+                     first [ reflexivity | assumption | lia | discriminate ] ].
+    all: try solve [ match goal with |- L3' _ {| sh := ?s0; io := ?i0; wk := upd ?w0 ?me0 ?x |} =>
+                       eapply (L3_append_wk _ i0 w0 me0 x s0 HL0 HL1 HL3) end;
+                     rewrite ?Hw; unfold writes, wsize; rewrite ?Hw; cbn; intros; bool_hyps;
+                     first [ reflexivity | assumption | lia | discriminate ] ].
+    all: try solve [ match goal with |- L3' _ {| sh := ?s0; io := ?i0; wk := upd ?w0 ?me0 ?x |} =>
+                       eapply (L3_rel _ i0 w0 me0 x s0 HL0 HL1 HL3) end;
+                     rewrite ?Hw; unfold writes, wsize; rewrite ?Hw; cbn; intros; bool_hyps;
+                     first [ reflexivity | assumption | lia | discriminate ] ].
+Qed.
+
+(* wsc is only ever set *)
+Lemma wsc_mono : forall st c st' l, step P st c = Some (st', l) -> wsc (sh st') = false -> wsc (sh st) = false.
+Proof.
+  intros st c st' l Hs H. destruct c as [e | me e].
+  - step_io Hs; cbn in *; congruence.
+  - step_wk Hs; cbn in *; congruence.
+Qed.
+
+Theorem L3_step : forall st c st' l, L0 st -> L1 st -> L2 st -> L3 P st -> step P st c = Some (st', l) -> L3 P st'.
+Proof.
+  intros st c st' l HL0 HL1 HL2 HL3 Hs Hwsc.
+  eapply L3'_step; eauto. apply HL3. eapply wsc_mono; eauto.
+Qed.
 End Step.
